@@ -1151,7 +1151,7 @@ def _real_decompress(prev: bytes, data: bytes) -> str:
 def _stream_paths(ctx):
     import dulwich.index as I
     rng = ctx.rng
-    pairs = [g_path_pair(rng) for _ in range(ctx.budget(400))]
+    pairs = [g_path_pair(rng) for _ in range(ctx.budget(800))]
     pairs += [("fixed", b"a/b", b"a/c"), ("fixed", b"", b""), ("fixed", b"a", b"a" * 200)]
     outs = ctx.driver.batch([f"c11.compress {hx(p)} {hx(q)}" for _, p, q in pairs])
     dec_lines, dec_meta = [], []
@@ -1236,7 +1236,7 @@ def entry_in_quantifier(v: int, name: bytes, e: dict) -> bool:
 
 def _stream_entries(ctx):
     rng = ctx.rng
-    n = ctx.budget(700)
+    n = ctx.budget(2000)
     cases = []
     for i in range(n):
         v = rng.choice([2, 2, 3, 3, 4, 4, 4, 1, 5])
@@ -1419,8 +1419,8 @@ def _stream_index(ctx, git: Git):
     """Whole files: model Index.write bytes vs real bytes; model reader vs real reader on written, damaged and
     foreign files; direct oracles: real write->read, C git listing (sampled), damage detection, failed write."""
     rng = ctx.rng
-    n = ctx.budget(260)
-    n_git = ctx.budget(70, mult=6)
+    n = ctx.budget(600)
+    n_git = ctx.budget(160, mult=6)
     n_dmg = 4
     cases = []
     cdir = core.VERIF / "corpus" / PROP
@@ -1616,7 +1616,7 @@ def check_gitwritten_case(ctx, git: Git, stream: str, desc: dict, raw: bytes, li
 def _stream_git_written(ctx, git: Git):
     rng = ctx.rng
     kinds = ["index-info"] * 5 + ["index-info-long"] * 3 + ["index-info-strip"] * 2 + ["add"] * 2 + ["read-tree", "read-tree-m", "sparse", "sparse-index"]
-    n = ctx.budget(32, mult=6)
+    n = ctx.budget(64, mult=6)
     jobs = []
     for i in range(n):
         kind = kinds[i % len(kinds)] if i < len(kinds) else rng.choice(kinds)
@@ -1683,7 +1683,7 @@ def _stream_fromstat(ctx):
     from dulwich.index import index_entry_from_stat
     rng = ctx.rng
     lines, reals, cases = [], [], []
-    for _ in range(ctx.budget(120)):
+    for _ in range(ctx.budget(200)):
         s = _St()
         s.st_mode = rng.choice([0o100644, 0o100755, 0o120777, 0o040755])
         s.st_ino = rng.choice(U32_EDGES + BIG)
